@@ -86,7 +86,9 @@ func scnValidate(payload string, caller string, method string, ctxv time.Duratio
 
 func c04Plan(tier string) []PlanItem {
 	var items []PlanItem
-	ctxs := []time.Duration{0, -1, 50 * ms, 5000 * ms}
+	// 0 = background, -1 = already cancelled, > 0 = deadline, < -1 = no deadline but
+	// cancelled that long after the call
+	ctxs := []time.Duration{0, -1, 50 * ms, 5000 * ms, -30 * ms}
 	for _, p := range append([]string{"<none>"}, payloadAlphabet...) {
 		for _, caller := range []string{"leader", "follower", "demoted", "stopped"} {
 			for _, m := range []string{"validate", "validateOrDemote"} {
@@ -94,7 +96,7 @@ func c04Plan(tier string) []PlanItem {
 					d := 1
 					// the full product at d=1 is the thorough tier; quick keeps d=1 for the
 					// leader (where the race matters) and the default schedule elsewhere
-					if tier != "thorough" && (caller != "leader" || (cv != 0 && cv != 50*ms)) {
+					if tier != "thorough" && (caller != "leader" || (cv != 0 && cv != 50*ms && cv != -30*ms)) {
 						d = 0
 					}
 					if tier == "thorough" && caller == "leader" && cv == 0 && (p == "$OWN" || p == "$SAME_ID_OTHER_TOKEN" || p == "<none>" || p == `{"id":"X","token":"tok-x","priority":0}`) {
@@ -115,7 +117,7 @@ func init() {
 	oracles["C04"] = oracleC04
 	props["C04"] = &propDef{
 		Level:  "exploration",
-		Rule:   "product of payload alphabet (50 record shapes incl. own payload variants, wrong types, missing/duplicate/case-variant keys, truncated, 1 MiB, invalid UTF-8) x caller state {leader, follower, demoted, stopped} x {ValidateToken, ValidateTokenOrDemote} x context {background, cancelled, 50ms deadline, 5s deadline}; on each, every execution with <= D deviations (position of the outside write and of the call at every choice point, read delayed up to H/2, read error, read hang past the deadline); non-trivial = a validation call returned; distinct = distinct observation-trace hash",
+		Rule:   "product of payload alphabet (50 record shapes incl. own payload variants, wrong types, missing/duplicate/case-variant keys, truncated, 1 MiB, invalid UTF-8) x caller state {leader, follower, demoted, stopped} x {ValidateToken, ValidateTokenOrDemote} x context {background, cancelled, 50ms deadline, 5s deadline, no deadline but cancelled 30ms into the call}; on each, every execution with <= D deviations (position of the outside write and of the call at every choice point, read delayed up to H/2, read error, read hang past the deadline); non-trivial = a validation call returned; distinct = distinct observation-trace hash",
 		Assume: []string{"byte strings outside the alphabet are not decided", "the read's linearisation point is the instant the harness applies the Get"},
 		Plan:   c04Plan,
 	}
@@ -154,6 +156,21 @@ func oracleC04(r *Result) ([]Violation, bool) {
 			method = "ValidateTokenOrDemote"
 		}
 		if verdict {
+			// a context that was cancelled or had expired before the call returned
+			if it := itemOf(r, e.S); it != nil {
+				var doneAt time.Duration = -1
+				switch {
+				case it.CtxTimeout > 0:
+					doneAt = call.T + it.CtxTimeout
+				case it.CtxTimeout < -1:
+					doneAt = call.T - it.CtxTimeout
+				case it.CtxTimeout < 0:
+					doneAt = call.T
+				}
+				if doneAt >= 0 && e.T > doneAt {
+					s.add(e.T, "true-with-done-context/"+method, "%s: %s returned true at %v although its context was cancelled / had expired at %v", e.I, method, e.T, doneAt)
+				}
+			}
 			ok := false
 			why := "no validation read was applied during the call"
 			for _, rd := range reads {
